@@ -78,7 +78,7 @@ def gen(rng, ctx):
         if rng.random() < 0.3:
             cd = G.add_blackboxes(rng, cd, 1, p_unconnected=0.0)
         nodes = [n for n, _, _ in cd["nodes"]]
-        assumps = [{n: rng.random() < 0.5 for n in rng.sample(nodes, rng.randint(0, 5))} for _ in range(4)]
+        assumps = [{n: rng.random() < 0.5 for n in rng.sample(nodes, rng.randint(0, min(5, len(nodes))))} for _ in range(4)]
         return {"c": cd, "kind": "large", "assumps": assumps, "probe": rng.sample(nodes, min(10, len(nodes))), "via": "graph"}
     maxn = 14 if big else 12
     ni = rng.randint(1, 5)
